@@ -419,6 +419,61 @@ func sortStrings(a []string) {
 
 // GenBatch draws a batch.
 func GenBatch(t *rapid.T, o Opts) *Batch {
+	return genBatchWith(t, o, newSeqState(t, o), false, false)
+}
+
+// seqState is what the requests of one sequence share: the measurement pool and
+// the per-measurement column schema (name -> role/type).
+type seqState struct {
+	sch      schema
+	measPool []string
+}
+
+func newSeqState(t *rapid.T, o Opts) *seqState {
+	st := &seqState{sch: schema{}}
+	nm := rapid.IntRange(1, 3).Draw(t, "nmeas")
+	for i := 0; i < nm; i++ {
+		if o.API {
+			st.measPool = append(st.measPool, apiMeasNames[(i*2+rapid.IntRange(0, 1).Draw(t, "measname"))%len(apiMeasNames)])
+		} else {
+			st.measPool = append(st.measPool, "")
+		}
+	}
+	return st
+}
+
+// GenSequence draws 1-4 request bodies for the same measurement(s) that are
+// meant to be buffered together and flushed once. The first request defines
+// each measurement's columns (in "dense" mode every further point of that
+// request carries all of them, so its buffered batch has no nulls); every later
+// request keeps exactly that column set and types - its first point per
+// measurement carries all columns, the others random subsets - so the batches
+// share one schema signature and are MERGED by the flush, with a different
+// null pattern in each batch.
+func GenSequence(t *rapid.T, o Opts) []*Batch {
+	st := newSeqState(t, o)
+	n := rapid.SampledFrom([]int{2, 1, 3, 4}).Draw(t, "nrequests")
+	dense := rapid.IntRange(0, 2).Draw(t, "dense") != 2
+	out := []*Batch{genBatchWith(t, o, st, false, dense)}
+	for i := 1; i < n; i++ {
+		out = append(out, genBatchWith(t, o, st, true, false))
+	}
+	return out
+}
+
+// keysOf lists a measurement's known column names (as written) by role, sorted.
+func (ms *measSchema) keysOf(tag bool) []string {
+	var lks []string
+	for lk, r := range ms.role {
+		if (r == "tag") == tag {
+			lks = append(lks, lk)
+		}
+	}
+	sortStrings(lks)
+	return lks
+}
+
+func genBatchWith(t *rapid.T, o Opts, st *seqState, fixed, dense bool) *Batch {
 	b := &Batch{}
 	b.Precision = rapid.SampledFrom([]string{"", "ns", "us", "ms", "s", "ns", "us"}).Draw(t, "precision")
 	maxPts := 30
@@ -429,16 +484,8 @@ func GenBatch(t *rapid.T, o Opts) *Batch {
 	if rapid.IntRange(0, 3).Draw(t, "multi") > 0 {
 		np = rapid.IntRange(1, maxPts).Draw(t, "npoints")
 	}
-	sch := schema{}
-	var measPool []string
-	nm := rapid.IntRange(1, 3).Draw(t, "nmeas")
-	for i := 0; i < nm; i++ {
-		if o.API {
-			measPool = append(measPool, apiMeasNames[(i*2+rapid.IntRange(0, 1).Draw(t, "measname"))%len(apiMeasNames)])
-		} else {
-			measPool = append(measPool, "")
-		}
-	}
+	sch, measPool, nm := st.sch, st.measPool, len(st.measPool)
+	seenInBatch := map[string]bool{}
 	var body strings.Builder
 	for pi := 0; pi < np; pi++ {
 		feats := map[string]bool{}
@@ -449,17 +496,54 @@ func GenBatch(t *rapid.T, o Opts) *Batch {
 		}
 		p.Meas = measPool[mi]
 		used := map[string]bool{}
-		nt := rapid.IntRange(0, 4).Draw(t, "ntags")
-		for i := 0; i < nt; i++ {
-			k := sch.pick(t, "tagk", p.Meas, "tag", ctxTagKey, o, used, feats)
-			v := genBare(t, "tagv", ctxTagVal, o, feats)
-			p.Tags = append(p.Tags, Tag{k, v})
+		ms := sch[p.Meas]
+		// "free": draw keys (new or reused); "full": exactly the measurement's
+		// known columns; "subset": a random subset of them (>= 1 field)
+		mode := "free"
+		switch {
+		case ms == nil:
+		case fixed && !seenInBatch[p.Meas]:
+			mode = "full"
+		case fixed:
+			mode = rapid.SampledFrom([]string{"subset", "full", "subset"}).Draw(t, "pointmode")
+		case dense:
+			mode = "full"
 		}
-		nf := rapid.IntRange(1, 5).Draw(t, "nfields")
-		for i := 0; i < nf; i++ {
-			kind := rapid.SampledFrom(kinds).Draw(t, "kind")
-			k := sch.pick(t, "fieldk", p.Meas, kind, ctxFieldKey, o, used, feats)
-			p.Fields = append(p.Fields, genField(t, "fv", k, kind, o, feats))
+		seenInBatch[p.Meas] = true
+		if mode == "free" {
+			nt := rapid.IntRange(0, 4).Draw(t, "ntags")
+			for i := 0; i < nt; i++ {
+				k := sch.pick(t, "tagk", p.Meas, "tag", ctxTagKey, o, used, feats)
+				v := genBare(t, "tagv", ctxTagVal, o, feats)
+				p.Tags = append(p.Tags, Tag{k, v})
+			}
+			nf := rapid.IntRange(1, 5).Draw(t, "nfields")
+			for i := 0; i < nf; i++ {
+				kind := rapid.SampledFrom(kinds).Draw(t, "kind")
+				k := sch.pick(t, "fieldk", p.Meas, kind, ctxFieldKey, o, used, feats)
+				p.Fields = append(p.Fields, genField(t, "fv", k, kind, o, feats))
+			}
+		} else {
+			feats["seq-"+mode] = true
+			for _, lk := range ms.keysOf(true) {
+				if mode == "full" || rapid.Bool().Draw(t, "keeptag") {
+					p.Tags = append(p.Tags, Tag{ms.orig[lk], genBare(t, "tagv", ctxTagVal, o, feats)})
+				}
+			}
+			fks := ms.keysOf(false)
+			forced := -1
+			if mode == "subset" {
+				forced = rapid.IntRange(0, len(fks)-1).Draw(t, "forcedfield")
+			}
+			for i, lk := range fks {
+				if mode == "full" || i == forced || rapid.Bool().Draw(t, "keepfield") {
+					p.Fields = append(p.Fields, genField(t, "fv", ms.orig[lk], ms.role[lk], o, feats))
+				}
+			}
+			// re-register the escape features of the reused names
+			for _, tg := range p.Tags {
+				encodeBare(tg.K, ctxTagKey, feats)
+			}
 		}
 		// timestamp
 		switch tk := rapid.IntRange(0, 9).Draw(t, "tskind"); {
